@@ -368,6 +368,15 @@ class SymNum:
       cur().note_float('round')
     return SymNum(s.kind, z3.simplify(z3.ToReal(r) / sc))
 
+  def to_bytes(s, length=1, byteorder="big", signed=False):
+    """int.to_bytes for a non-negative symbolic int: a list of symbolic byte values"""
+    if s.kind != 'i' or signed:
+      raise HarnessError("to_bytes of a non-integer")
+    if not cur().is_certain(z3.And(s.z >= 0, s.z < 256 ** length)):
+      raise OverflowError("int too big to convert")
+    out = [SymNum('i', z3.simplify((s.z / (256 ** i)) % 256)) for i in range(length)]
+    return out[::-1] if byteorder == "big" else out
+
   def __index__(s):
     raise HarnessError("symbolic int reached __index__ (C boundary)")
 
@@ -512,6 +521,15 @@ class SymDict(dict):
       if dict.__contains__(self, key):
         return True, dict.__getitem__(self, key)
       return False, None
+    if isinstance(key, SymNum) and key.kind == 'i':
+      # a key already determined by the path condition is looked up like a concrete one
+      ex = cur()
+      ex._check()
+      v0 = model_value(ex.solver.model(), key.z)
+      if ex.is_certain(key.z == v0):
+        if dict.__contains__(self, v0):
+          return True, dict.__getitem__(self, v0)
+        return False, None
     for k, v in self.items():
       if isinstance(k, tuple):
         if isinstance(key, tuple) and len(key) == len(k) and all(a == b for a, b in zip(key, k)):
@@ -722,6 +740,19 @@ class Explorer:
   def boolean(self, name) -> bool:
     return self.decide(z3.Bool(name))
 
+  def concretize(self, sym, lo, hi) -> int:
+    """concrete value of a symbolic integer known to lie in [lo,hi]: solver-decided binary search (forks);
+    every feasible value is reached on some path"""
+    z = sym.z if isinstance(sym, SymNum) else sym
+    while lo < hi:
+      mid = (lo + hi) // 2
+      if self.decide(z <= mid):
+        hi = mid
+      else:
+        lo = mid + 1
+    self.assume(z == lo)
+    return lo
+
   # -- holes
 
   def new_hole(self, sym, spec):
@@ -920,6 +951,9 @@ class Concrete:
 
   def boolean(self, name):
     return bool(self._get(name, False))
+
+  def concretize(self, sym, lo, hi):
+    return int(sym)
 
   def assume(self, c):
     c = z3.simplify(zbool(c))
